@@ -50,9 +50,55 @@ func hexOfString(s string) string {
 // ---- a tiny translator for loop-free integer functions -------------------------------------
 
 type tr struct {
-	rename map[string]string // Go expression text -> Coq variable
-	locals map[string]bool   // variables introduced by :=
+	rename map[string]string   // Go expression text -> Coq variable
+	locals map[string]bool     // variables introduced by :=
+	subst  map[string]ast.Expr // locals bound to an expression the translator has no value for (inlined where used)
 	err    error
+}
+
+// text is exprText with the inlined locals expanded, so that `n := msg.RandomNonce` followed by
+// `Check(sender, n)` is looked up in the rename table as `Check(sender,msg.RandomNonce)`.
+func (t *tr) text(e ast.Expr) string {
+	switch x := e.(type) {
+	case *ast.Ident:
+		if r, ok := t.subst[x.Name]; ok {
+			return t.text(r)
+		}
+		return x.Name
+	case *ast.SelectorExpr:
+		return t.text(x.X) + "." + x.Sel.Name
+	case *ast.StarExpr:
+		return "*" + t.text(x.X)
+	case *ast.BasicLit:
+		return x.Value
+	case *ast.IndexExpr:
+		return t.text(x.X) + "[" + t.text(x.Index) + "]"
+	case *ast.CallExpr:
+		args := []string{}
+		for _, a := range x.Args {
+			args = append(args, t.text(a))
+		}
+		return t.text(x.Fun) + "(" + strings.Join(args, ",") + ")"
+	}
+	return fmt.Sprintf("%T", e)
+}
+
+// pureExpr: no call except conversions and len; map/slice reads and field selections are pure.
+func pureExpr(e ast.Expr) bool {
+	pure := true
+	ast.Inspect(e, func(n ast.Node) bool {
+		if c, ok := n.(*ast.CallExpr); ok {
+			if id, ok := c.Fun.(*ast.Ident); ok {
+				switch id.Name {
+				case "len", "int", "int64", "uint64", "int32", "uint32":
+					return true
+				}
+			}
+			pure = false
+		}
+		return true
+	})
+	return pure
 }
 
 func (t *tr) fail(format string, a ...any) string {
@@ -85,8 +131,13 @@ func exprText(e ast.Expr) string {
 }
 
 func (t *tr) expr(e ast.Expr) string {
-	if v, ok := t.rename[exprText(e)]; ok {
+	if v, ok := t.rename[t.text(e)]; ok {
 		return v
+	}
+	if id, ok := e.(*ast.Ident); ok {
+		if r, ok := t.subst[id.Name]; ok {
+			return t.expr(r)
+		}
 	}
 	switch x := e.(type) {
 	case *ast.BasicLit:
@@ -218,6 +269,12 @@ func (t *tr) stmts(ss []ast.Stmt) string {
 		}
 		return t.expr(s.Results[0])
 	case *ast.AssignStmt:
+		if len(s.Lhs) == 1 && len(s.Rhs) == 1 && s.Tok != token.DEFINE {
+			if _, isIndex := s.Lhs[0].(*ast.IndexExpr); isIndex {
+				// a state update after the decision (m[k] = v); the decision is what is translated
+				return t.stmts(ss[1:])
+			}
+		}
 		if len(s.Lhs) != 1 || len(s.Rhs) != 1 || s.Tok != token.DEFINE {
 			return t.fail("unsupported assignment")
 		}
@@ -225,12 +282,15 @@ func (t *tr) stmts(ss []ast.Stmt) string {
 		if !ok {
 			return t.fail("unsupported assignment target")
 		}
-		rhs := t.expr(s.Rhs[0])
-		if t.locals == nil {
-			t.locals = map[string]bool{}
+		// a local bound to a side-effect-free expression is inlined where it is used
+		if !pureExpr(s.Rhs[0]) {
+			return t.fail("local %s is bound to an expression with a call the translator does not know", id.Name)
 		}
-		t.locals[id.Name] = true
-		return "let " + id.Name + " := " + rhs + " in\n  " + t.stmts(ss[1:])
+		if t.subst == nil {
+			t.subst = map[string]ast.Expr{}
+		}
+		t.subst[id.Name] = s.Rhs[0]
+		return t.stmts(ss[1:])
 	case *ast.IfStmt:
 		if s.Init != nil || s.Else != nil {
 			return t.fail("unsupported if form")
